@@ -26,8 +26,9 @@ LEVEL = {
     'C04': {'text': 'Theorems: error iff, no-series iff, bounds/step/count of the series as a function of layout, window and clock only; best archive = first covering.',
             'design_ref': '5 C04',
             'note': _TB},
-    'C05': {'text': 'Theorems on the page-buffer model (flush makes disk = view for any page size); slot-view handle model with an explicit disk copy; '
-                    'the code is compared after every operation (file bytes vs last-sync snapshot, second handle fetches).',
+    'C05': {'text': 'Theorems on the page-buffer model for any page size, offset and length: writes change the view exactly in the written range and never the disk, reads return the view and change nothing, '
+                    'Flush makes disk = view and keeps view and length; on the handle model: a fresh Open after Sync fetches what the live handle fetches, and for every history and every abandonment point the disk is '
+                    'the state of the last Sync. The code is compared after every operation (file bytes vs last-sync snapshot, second-handle fetches) and for failing CLI writes.',
             'design_ref': '5 C05',
             'note': _TB + 'Process death is modelled as dropping the handle with an intact kernel; power loss / fsync durability is outside the model.'},
     'C14': {'text': 'Theorems for every encodable object and every remainder: decode(encode x ++ r) = (x, r); for every proper prefix the decoder '
